@@ -184,8 +184,61 @@ def bang_parse_contract(ctx, rule, F, cfg):
     ctx.floor(rule, "Some exits of BangType::parse", n, 7, config=cfg)
 
 
+def refill_completeness(ctx, rule, F, cfg):
+    """A buffered helper may only stop at a chunk boundary for a reason that the slice implementation
+    would also have: terminator found, or end of input.  A chunk that was scanned to its end without
+    finding the terminator (or, for skip_whitespace, that was consumed as whitespace) must lead back to
+    the refill, never to a return."""
+    scans = {"read_text": "memchr", "read_with": "feed", "read_bang_element": "parse"}
+    bodies = []
+    for h in list(scans) + ["skip_whitespace"]:
+        for b in F.bodies_with("buffered_reader", "XmlSource", end=h):
+            bodies.append((h, "sync", b))
+        for b in F.bodies_matching(r"reader::async_tokio::TokioAdapter::%s::\{closure#0\}$" % h):
+            bodies.append((h, "async", b))
+    for h, kind, b in bodies:
+        site = "buffered[%s]:%s" % (kind, h)
+        n_nf = 0
+        bad = []
+        for p in ctx.paths(b, max_paths=60000):
+            if ends(p) not in ("ret", "loop"):
+                continue
+            if h == "skip_whitespace":
+                cons = [c for c in calls(p) if name_is(c[2], "consume")]
+                if cons:
+                    n_nf += 1
+                    if ends(p) != "loop":
+                        bad.append("returns after consuming whitespace of one chunk")
+                elif ends(p) == "ret":
+                    r = ret_of(p)
+                    if describe_ret(r, 0)[0][:1] == ("Ok",):
+                        # nothing consumed: the chunk is empty or starts with a non-whitespace byte
+                        gt = [e for e in p if e[0] == "switch" and e[2][0] == "bin" and e[2][1] in ("Gt", "Eq", "Ne")]
+                        if not gt:
+                            bad.append("Ok exit without testing the number of skipped bytes")
+                continue
+            d = [e for e in p if e[0] == "switch" and e[2][0] == "discr" and e[2][1][0] == "call" and name_is(e[2][1][2], scans[h])]
+            if not d:
+                continue
+            notfound = d[-1][3] == 0 if isinstance(d[-1][3], int) else True
+            if notfound:
+                n_nf += 1
+                if ends(p) != "loop":
+                    bad.append("returns %s although the scanner found no terminator in this chunk" % sym.show(ret_of(p), 2))
+                else:
+                    hd = [i for i, e in enumerate(p) if e[0] == "head"]
+                    seg = p[hd[0]:] if hd else p
+                    copied = [c for c in calls(seg) if name_is(c[2], "extend_from_slice")]
+                    cons = [c for c in calls(seg) if name_is(c[2], "consume")]
+                    if len(copied) != 1 or len(cons) != 1 or not (call_is(strip_wrappers(cons[0][3][1]), "len") or has_subterm(cons[0][3][1], lambda s: call_is(s, "len"))):
+                        bad.append("the whole chunk must be copied and consumed before the next refill")
+        ctx.ob(rule, site + ":chunk-boundary-is-not-an-exit", n_nf >= 1 and not bad,
+               "a chunk scanned to its end without a terminator (for skip_whitespace: consumed as whitespace) must lead back to the refill, as the slice implementation sees the whole input at once: %d such paths, problems %s" % (n_nf, sorted(set(bad))), config=cfg)
+
+
 def check(ctx, rule):
     for cfg, F in ctx.facts.items():
         slice_impl(ctx, rule, F, cfg)
         buffered_impl(ctx, rule, F, cfg)
+        refill_completeness(ctx, rule, F, cfg)
         bang_parse_contract(ctx, rule, F, cfg)
